@@ -1,5 +1,5 @@
 #!/venv/bin/python
-"""tools/seeded_all.py [--only <substr>] [--tier quick]
+"""tools/seeded_all.py [--only <substr>] [--tier quick] [--jobs N]
 Regression over seeded/: applies each stored patch to a scratch worktree of /repo HEAD (outside /repo and /verif) and runs
 the checks named in its meta.json `caught_by` with VERIF_REPO; every one of them must report a VIOLATION."""
 import argparse, json, os, sys
@@ -10,8 +10,11 @@ from rv.selftest.run import one  # noqa
 ap = argparse.ArgumentParser()
 ap.add_argument("--only")
 ap.add_argument("--tier", default="quick")
+ap.add_argument("--jobs", type=int, default=1)
 a = ap.parse_args()
-missed, n = [], 0
+from concurrent.futures import ThreadPoolExecutor
+
+missed, n, jobs = [], 0, []
 for sid in sorted(os.listdir(os.path.join(here, "seeded"))):
     d = os.path.join(here, "seeded", sid)
     if not os.path.exists(os.path.join(d, "meta.json")) or (a.only and a.only not in sid):
@@ -20,14 +23,15 @@ for sid in sorted(os.listdir(os.path.join(here, "seeded"))):
     if meta.get("expected_miss"):
         print("%-55s (recorded as not decidable by its property's check: %s)" % (sid, (meta.get("strengthening") or "")[:90]), flush=True)
         continue
-    props = meta.get("caught_by") or [meta["property"]]
-    r = one(sid, open(os.path.join(d, "patch.diff"), "rb").read(), props, tier=a.tier)
-    n += 1
-    bad = [x["prop"] for x in r["results"] if not x["caught"]] if r["results"] else ["(patch does not apply)"]
-    print("%-55s %s" % (sid, "; ".join("%s rc=%s n=%s %ss replay=%s" % (x["prop"], x["rc"], x["violations"], x["wall"], x.get("replay"))
-                                       for x in r["results"]) or r["caught_by"]), flush=True)
-    if bad:
-        missed.append((sid, bad))
-        print("     MISSED: %s" % bad, flush=True)
+    jobs.append((sid, open(os.path.join(d, "patch.diff"), "rb").read(), meta.get("caught_by") or [meta["property"]]))
+with ThreadPoolExecutor(max_workers=a.jobs) as ex:
+    for (sid, _, props), r in zip(jobs, ex.map(lambda j: one(j[0], j[1], j[2], tier=a.tier), jobs)):
+        n += 1
+        bad = [x["prop"] for x in r["results"] if not x["caught"]] if r["results"] else ["(patch does not apply)"]
+        print("%-55s %s" % (sid, "; ".join("%s rc=%s n=%s %ss replay=%s" % (x["prop"], x["rc"], x["violations"], x["wall"], x.get("replay"))
+                                           for x in r["results"]) or r["caught_by"]), flush=True)
+        if bad:
+            missed.append((sid, bad))
+            print("     MISSED: %s" % bad, flush=True)
 print("seeded regression: %d changes, missed: %s" % (n, missed))
 sys.exit(1 if missed else 0)
